@@ -149,6 +149,7 @@ func (e *Exec) oblige(fr *frame, st *State, kind, desc string, pos token.Pos, go
 			o.Props = e.onlyProps
 			o.Restricted = true
 		}
+		o.Group = e.ctx.group
 		o.Soft = base == "ovf"
 		e.ctx.obls = append(e.ctx.obls, o)
 		if first == nil {
@@ -485,7 +486,9 @@ func (e *Exec) checkInvariants(fr *frame, st *State, ord int, kind string, hb *s
 	for _, c := range e.loopClauses(fr, ord, "invariant") {
 		env := e.specEnv(fr, st, hb)
 		v := env.eval(c.E)
+		e.ctx.group = c.Group
 		e.oblige(fr, st, fmt.Sprintf("%s:%d", kind, ord), "loop invariant: "+c.Src, firstPos(hb), v.T)
+		e.ctx.group = ""
 	}
 }
 
@@ -496,7 +499,9 @@ func (e *Exec) assumeInvariants(fr *frame, st *State, ord int, hb *ssa.BasicBloc
 	for _, c := range e.loopClauses(fr, ord, "invariant") {
 		env := e.specEnv(fr, st, hb)
 		v := env.eval(c.E)
+		e.ctx.group = c.Group
 		e.ctx.assume(imp(st.pc, v.T))
+		e.ctx.group = ""
 	}
 }
 
